@@ -12,6 +12,11 @@ global size_of usize == 8;
 #[verifier::external_body] fn xstr_text_eq(a: &Xstr, b: &Xstr) -> (r: bool) ensures r == (xtext(*a) == xtext(*b)) { unimplemented!() }
 
 //@type src/lex.rs struct TokenLocation
+//@include preamble/fmt_sink.rs
+impl core::fmt::Display for Xstr { #[verifier::external_body] fn fmt(&self, f: &mut core::fmt::Formatter<'_>) -> core::fmt::Result { unimplemented!() } }
+impl TokenLocation {
+//@use lex.fns "impl fmt::Debug for TokenLocation"::fmt
+}
 
 // ---- the lexer state
 //@type src/lex.rs struct Lex
